@@ -266,10 +266,19 @@ Inductive prim_case :=
 | PcSha1 (s r : list N)
 | PcUtf8 (s : list N) (r : bool)
 | PcExt (s : str) (r : list extension)
-| PcHeader (s : str) (r : option (str * hdrs)).
+| PcHeader (s : str) (r : option (str * hdrs))
+| PcOrigin (s : str) (us : urlsplit_res) (r : option origin)      (* _url_to_origin on one Origin value *)
+| PcSameOrigin (o : origin) (allowed : list str) (r : bool).      (* _is_same_origin on a triple and an allow-list *)
 
 Definition ext_eqb : extension -> extension -> bool := pair_eqb str_eqb params_eqb.
 Definition hdrs_eqb : hdrs -> hdrs -> bool := list_eqb (pair_eqb str_eqb (pair_eqb str_eqb N.eqb)).
+
+Definition origin_eqb (a b : origin) : bool :=
+  match a, b with
+  | ONull, ONull => true
+  | OTriple s h p, OTriple s' h' p' => str_eqb s s' && str_eqb h h' && opt_eqb Z.eqb p p'
+  | _, _ => false
+  end.
 
 Definition prim_case_ok (c : prim_case) : bool :=
   match c with
@@ -283,6 +292,8 @@ Definition prim_case_ok (c : prim_case) : bool :=
   | PcUtf8 s r => Bool.eqb (utf8_valid s) r
   | PcExt s r => list_eqb ext_eqb (parse_extensions_header s) r
   | PcHeader s r => opt_eqb (pair_eqb str_eqb hdrs_eqb) (parse_http_header s) r
+  | PcOrigin s us r => opt_eqb origin_eqb (url_to_origin (fun _ => us) s) r
+  | PcSameOrigin o allowed r => Bool.eqb (is_same_origin o allowed) r
   end.
 
 (* sanity: FIPS 180 "abc" vector and the RFC 6455 section 1.3 example *)
